@@ -82,6 +82,36 @@ def memberRes : Option Operand → P → Bool
   | none, _ => false
   | some o, p => member o p
 
+/-! ## the natural reading (shell minus holes, union of members) -/
+
+/-- in the shell (first ring) and in no hole -/
+def memberPolyNat : List Ring → P → Bool
+  | [], _ => false
+  | shell :: holes, p => insideRing shell p && !(holes.any fun h => insideRing h p)
+
+/-- in some member polygon -/
+def memberNat : Operand → P → Bool
+  | .poly rs, p => memberPolyNat rs p
+  | .multi ps, p => ps.any fun rs => memberPolyNat rs p
+  | .box mn mx, p => strictInBox mn mx p
+
+def atMostOne : List Bool → Bool
+  | [] => true
+  | b :: r => (!b || !r.any id) && atMostOne r
+
+/-- at `p`: every hole lies in the shell and the holes do not overlap -/
+def nestedAt : List Ring → P → Bool
+  | [], _ => true
+  | shell :: holes, p =>
+    (holes.all fun h => !insideRing h p || insideRing shell p) && atMostOne (holes.map fun h => insideRing h p)
+
+/-- at `p`: holes inside shells, holes disjoint, member polygons disjoint ("valid" in the OGC sense,
+as far as the point `p` can tell) -/
+def wellNestedAt : Operand → P → Bool
+  | .poly rs, p => nestedAt rs p
+  | .multi ps, p => (ps.all fun rs => nestedAt rs p) && atMostOne (ps.map fun rs => memberPolyNat rs p)
+  | .box _ _, _ => true
+
 /-! ## boundaries -/
 
 def between (u v w : Rat) : Bool :=
@@ -254,5 +284,9 @@ def sampleCheck (cap : Nat) (op : Op) (A B : Operand) (R : Option Operand) : Opt
   let rr := match R with | none => [] | some o => o.rings
   let pts := (samplePoints cap ra rb rr).filter fun p => clearOf margin ra p && clearOf margin rb p
   (pts.find? fun p => memberRes R p != opBool op (member A p) (member B p), pts.length)
+
+/-- the operands are well nested (holes in shells, members disjoint) as far as the sample points tell -/
+def nestedCheck (cap : Nat) (A B : Operand) : Bool :=
+  (samplePoints cap A.rings B.rings []).all fun p => wellNestedAt A p && wellNestedAt B p
 
 end GeomV.C01
